@@ -14,6 +14,8 @@ var c07Templates = []string{
 	`$each(o, function($v, $k){$k})`, `$sift(o, function($v){$v > 0})`, `$spread(o)`, `$keys(o)`, `arr[0]`, `objs.v`, `objs[k > 0]`, `[arr, arr]`, `{"a": arr}`, `$map(arr, function($v){$v})`,
 	`$append(head, 9)`, `$append(head, arr)`, `$reverse(head)`, `$sort(head)`, `[head, 9]`, `$ ~> |rows[0]|{"seen": true}, "v"|`, `$ ~> |rows|{"seen": true}|`, `rows ~> |$|{"z": 1}|`,
 	`$ ~> |objs[0]|{"z": 1}|`, `$merge([o, eo])`, `$zip(head, arr)`, `$shuffle(head)`, `$distinct(head)`,
+	`eo ~> |$|{"x": 1}|`, `$map([eo, o], |$|{"seen": true}|)`, `e ~> |$|{"x": 1}|`, `$ ~> |eo|{"x": 1}|`, `[eo] ~> |$|{"x": 1}|`, `nul ~> |$|{"x": 1}|`, `$sort(all, function($x, $y){$x > $y})`,
+	`$sort([1, 3, 2], function($x, $y){$x > $y})`, `$sort(head, function($x, $y){$x > $y})`,
 	`$reduce(arr, function($x, $y){$x + $y})`, `$filter(arr, function($v){$v > 0})`, `$single(arr, function($v){$v > 100})`, `$sort(objs, function($x, $y){$x.k > $y.k})`,
 }
 
